@@ -171,6 +171,12 @@ func computeBcrypt(opts HashOpts, pass string) (string, error) {
 }
 
 func verifyBcrypt(pass, hashSalt string) error {
+	// bcrypt looks only at the first 72 bytes. GenerateFromPassword refuses
+	// longer passwords, so no stored hash can belong to one; without this
+	// check any password sharing its first 72 bytes with the stored one matches.
+	if len(pass) > 72 {
+		return bcrypt.ErrPasswordTooLong
+	}
 	return bcrypt.CompareHashAndPassword([]byte(hashSalt), []byte(pass))
 }
 
